@@ -286,6 +286,41 @@ Definition no_gate_leak : bool :=
                        | _ => true
                        end) gen_types.
 
+(* ---- what an exported function or method may not do without review (round 4 of seeded changes) ---- *)
+(* a parameter through which the callee can WRITE a trusted value: a pointer (possibly inside slices,
+   maps, variadics) to something that mentions a tracked type *)
+Fixpoint has_ptr_to (names : list (bytes * bytes)) (fuel : nat) (t : texpr) : bool :=
+  match fuel with
+  | O => false
+  | S f =>
+      match t with
+      | TPtr u => mentions names f u || has_ptr_to names f u
+      | TSlice u | TVariadic u => has_ptr_to names f u
+      | TMap k v => has_ptr_to names f k || has_ptr_to names f v
+      | _ => false
+      end
+  end.
+Definition param_ptr_tracked_ok (f : api_func) : bool :=
+  is_reviewed f || negb (existsb (fun x => has_ptr_to tracked_types mention_fuel (snd x)) (f_params f)).
+
+(* a method with an exported name on an UNEXPORTED type that an exported struct type embeds is promoted:
+   it is part of the exported type's method set and needs a review entry like any other method *)
+Definition starts_upper (n : bytes) : bool :=
+  match n with c :: _ => (65 <=? c) && (c <=? 90) | [] => false end.
+Definition embedded_in_exported (p r : bytes) : bool :=
+  existsb (fun d => bytes_eqb (t_pkg d) p && t_exported d &&
+                    match t_under d with
+                    | UStruct fs => existsb (fun fl : api_field => match fl with (n, _, emb, _) => emb && bytes_eqb n r end) fs
+                    | _ => false
+                    end) gen_types.
+Definition promoted_method_ok (f : api_func) : bool :=
+  match f_recv f with
+  | [] => true
+  | r => starts_upper r || negb (embedded_in_exported (f_pkg f) r) || is_reviewed f
+  end.
+Definition api_surface_extra_check : bool :=
+  forallb param_ptr_tracked_ok gen_funcs && forallb promoted_method_ok gen_funcs.
+
 Definition reviewed_wellformed : bool := forallb role_wellformed reviewed_api.
 
 Definition api_closed_world_check : bool :=
